@@ -384,7 +384,7 @@ func main() {
 	settle()
 	vkit.Main(&vkit.Spec{
 		Property: "C14", Level: "model_checking",
-		Rule: "one scenario = family x configuration. (a) epoll mode x server executor (goroutine per call, default task pool, inline) x client frame script (0-3 messages, one optionally fragmented, 1-2 bursts; conforming client that waits for the 101 response, or a frame in the same burst as the upgrade request, or bursts sent without waiting) x ending (peer FIN, peer RST, Close from a message handler, from OnOpen, from another thread, FIN and Close together), optionally with the handler echoing through WriteMessage, on the real nbhttp engine + Upgrader.Upgrade scenario 1; (a-panic) the same stack with a user callback that panics once (nbio.Conn.execute recovers the panic of a queued job): the handler of the first or of a middle message of three (also right after it called Close), or the OnOpen handler (which runs inside the upgrade request's job), or both, followed by more messages x ending (FIN, RST, Close from a later handler, Close from another thread, FIN and Close together); (b) writer scripts (WriteMessage of 2F+1 bytes = 3 fragments, single frames, pings, a hand-made WriteFrame sequence first/continuation/final, a single-frame message through WriteFrame) of 2-3 threads on a direct-mode server Conn; (c) the same writers on a Conn from Upgrade scenario 4 (unknown net.Conn type, read loop started by Upgrade) with the send queue x queue limit x failing k-th write x close source (none, peer EOF, Close + virtual close delay, a writer that closes) x inbound messages (with echo), and without the send queue; (c-frames) callers of the public WriteFrame API on the send queue: single frames and a fragmented sequence, alone, next to a ping writer, next to a WriteMessage writer, from three threads, against a bounded queue that is full or has exactly one slot left when the call is made (the drainer has not run in the default schedule; preemptions let it), with a follow-up WriteFrame once everything has drained, and with a racing close; (c-deflate) the bounded send queue with permessage-deflate negotiated through the real Upgrade (EnableCompression + extension header) and a 16-byte frame limit: a writer queues 0-3 small messages and then one big message whose class and length decide how many frames it needs AFTER deflate - incompressible (deterministic pseudo-random bytes, verified when the scenario list is built to deflate to MORE bytes than the input) of every length kF-d, d in 0..6, which needs one frame more than its uncompressed length suggests for d<6, and compressible (shrinks below a frame boundary) - x queue limit leaving exactly k or k+1 (fc or fu) free slots x a follow-up message written after the queue drained, plus variants with a ping in the queue, a second writer, a racing close; (d) two writers on the engine-backed Conn x socket capacity (everything fits / 16 bytes) x no close / Close from another thread. Every interleaving within the preemption bound is executed on the real code. Non-trivial = the scenario delivered messages and ran OnClose (a) / put messages on the wire while a second writer was inside its call between two fragments of the first (b, d) / put messages on the wire or delivered inbound messages (c) / put RSV1 messages on the wire and had the follow-up message accepted (c-deflate) ADDITIONAL PART (scenario name \"blocking-modes/real-sockets/history-enumeration\", a different and weaker kind of claim): bounded-exhaustive enumeration of HISTORIES, free-running schedule - one case = I/O mode (IOModBlocking, IOModMixed with MaxBlockingOnline 1, IOModMixed with every connection of the history in the poller half, IOModNonBlocking as control) x upgrader variant (plain = blocking with parser, BlockingModAsyncWrite, BlockingModTrasferConnToPoller) x every event sequence of length <= 4 on one connection and <= 3 spread over two (thorough: 5 and 4) on real AF_UNIX socket-pair connections over {connection opened and upgraded, text message echoed, two text messages in one write, ping, close frame, message whose handler closes the connection from the server side, peer leaves without a close frame, peer half-close}; whatever is still open at the end is left by its peer without a close frame, then the per-connection callback logs are judged while the engine is still running; each case is executed ONCE on the real code with real goroutines and the real kernel, schedules are not enumerated",
+		Rule: "one scenario = family x configuration. (a) epoll mode x server executor (goroutine per call, default task pool, inline) x client frame script (0-3 messages, one optionally fragmented, 1-2 bursts; conforming client that waits for the 101 response, or a frame in the same burst as the upgrade request, or bursts sent without waiting) x ending (peer FIN, peer RST, Close from a message handler, from OnOpen, from another thread, FIN and Close together), optionally with the handler echoing through WriteMessage, on the real nbhttp engine + Upgrader.Upgrade scenario 1; (a-panic) the same stack with a user callback that panics once (nbio.Conn.execute recovers the panic of a queued job): the handler of the first or of a middle message of three (also right after it called Close), or the OnOpen handler (which runs inside the upgrade request's job), or both, followed by more messages x ending (FIN, RST, Close from a later handler, Close from another thread, FIN and Close together); (b) writer scripts (WriteMessage of 2F+1 bytes = 3 fragments, single frames, pings, a hand-made WriteFrame sequence first/continuation/final, a single-frame message through WriteFrame) of 2-3 threads on a direct-mode server Conn; (c) the same writers on a Conn from Upgrade scenario 4 (unknown net.Conn type, read loop started by Upgrade) with the send queue x queue limit x failing k-th write x close source (none, peer EOF, Close + virtual close delay, a writer that closes) x inbound messages (with echo), and without the send queue; (c-readers) one or two additional threads calling the public Conn.HandleRead next to the read loop Upgrade starts, with two inbound frames (fed while the callers race, or readable before Upgrade), with / without writers and echo, no close / peer EOF, with and without the send queue; (c-frames) callers of the public WriteFrame API on the send queue: single frames and a fragmented sequence, alone, next to a ping writer, next to a WriteMessage writer, from three threads, against a bounded queue that is full or has exactly one slot left when the call is made (the drainer has not run in the default schedule; preemptions let it), with a follow-up WriteFrame once everything has drained, and with a racing close; (c-deflate) the bounded send queue with permessage-deflate negotiated through the real Upgrade (EnableCompression + extension header) and a 16-byte frame limit: a writer queues 0-3 small messages and then one big message whose class and length decide how many frames it needs AFTER deflate - incompressible (deterministic pseudo-random bytes, verified when the scenario list is built to deflate to MORE bytes than the input) of every length kF-d, d in 0..6, which needs one frame more than its uncompressed length suggests for d<6, and compressible (shrinks below a frame boundary) - x queue limit leaving exactly k or k+1 (fc or fu) free slots x a follow-up message written after the queue drained, plus variants with a ping in the queue, a second writer, a racing close; (e) CLIENT side: the real websocket.Dialer (blocking Dial and Dial with a result handler) on the engine over the simulated kernel, epoll mode x scripted server that sends the 101 response alone / with one / with two frames in the same write, further frames in a second write x ending (server FIN, RST, Close from the first message handler, Close from another thread), open handler with a scheduling point inside; (d) two writers on the engine-backed Conn x socket capacity (everything fits / 16 bytes) x no close / Close from another thread. Every interleaving within the preemption bound is executed on the real code. Non-trivial = the scenario delivered messages and ran OnClose (a) / put messages on the wire while a second writer was inside its call between two fragments of the first (b, d) / put messages on the wire or delivered inbound messages (c) / put RSV1 messages on the wire and had the follow-up message accepted (c-deflate) ADDITIONAL PART (scenario name \"blocking-modes/real-sockets/history-enumeration\", a different and weaker kind of claim): bounded-exhaustive enumeration of HISTORIES, free-running schedule - one case = I/O mode (IOModBlocking, IOModMixed with MaxBlockingOnline 1, IOModMixed with every connection of the history in the poller half, IOModNonBlocking as control) x upgrader variant (plain = blocking with parser, BlockingModAsyncWrite, BlockingModTrasferConnToPoller) x every event sequence of length <= 4 on one connection and <= 3 spread over two (thorough: 5 and 4) on real AF_UNIX socket-pair connections over {connection opened and upgraded, text message echoed, two text messages in one write, ping, close frame, message whose handler closes the connection from the server side, peer leaves without a close frame, peer half-close}; whatever is still open at the end is left by its peer without a close frame, then the per-connection callback logs are judged while the engine is still running; each case is executed ONCE on the real code with real goroutines and the real kernel, schedules are not enumerated",
 		Assumptions: []string{
 			"sequentially consistent interleavings at lock / atomic / channel / syscall / timer operations and at the harness points (fake conn Write/Read/Close, inside every callback); unsynchronised field accesses are interleaved only for the fields the overlay generator lists as racy (cmd/ovgen racyFields: websocket.Conn.closed, nbio.Conn.closed, ... - not nbio.Conn.session, which Upgrade swaps without a lock)",
 			"covered upgrade paths: scenario 1 (*nbio.Conn owned by the engine, all three epoll modes, IOModNonBlocking) and scenario 4 (unknown net.Conn type: blocking mode with own read loop and send queue). NOT covered: scenarios 2, 3 and the transfer-to-poller variants need a real *net.TCPConn / llib *tls.Conn on real descriptors and real goroutines, out of reach of the cooperative scheduler; their ordering rests on the same Execute / MustExecute queue, Engine.SyncCall and send-queue code explored here",
@@ -397,6 +397,8 @@ func main() {
 			"a client that sends frames in the same burst as its upgrade request violates RFC 6455 4.1; for it only the ordering clauses are judged (nbio hands those bytes to the HTTP parser and closes)",
 			"callback part: loss of inbound messages is C02/C12's subject; here delivered messages must be an in-order prefix of the wire",
 			"the close callback is owed once the connection has ended and Upgrade had succeeded",
+			"concurrent HandleRead callers: the read loop is not re-entrant, so at most one caller may ever read from the connection (observed at the fake conn's Read) and the others return while the connection is open; which caller wins is free",
+			"client side: websocket.Dialer constructs its nbhttp.ClientConn itself and reaches the network only through net.Dial / net.DialTimeout (nbhttp/client_conn.go) - the harness supplies the connection through the Dialer's Proxy seam with a registered proxy scheme (hook nbhttp.VerifRegisterProxyDialer, which calls the package's own proxyRegisterDialerType) whose dialer returns a *nbio.Conn on a simulated stream pair; wss:// (TLS) is not covered. The client's open callback counts as owed once Dial reported success",
 			"additional part (blocking / mixed modes on real sockets, upgrade paths 'blocking with parser' and 'transferred to poller'): EVERY HISTORY up to the depth is run, NOT every schedule - silence there means 'no history of that shape fails under the schedules the runtime produced'. Oracle per connection whose peer read the 101, from a log written by the callbacks themselves: the open callback had returned before any message callback was entered, message callbacks never overlap, their payloads are the data messages the peer sent, in wire order (the peer waits for each echo, so all of them are owed), the close callback ran exactly once, after them. A missing close callback is judged only when it is final: every peer is gone, engine.Online() has reached 0 (both teardown paths of nbhttp call websocket.Conn.CloseAndClean, which runs the close callback synchronously, before they remove the connection from engine.conns) and every engine goroutine is parked (pollers in epoll_wait) in 5 consecutive goroutine dumps. Waits of the harness are capped generously (30 s); an expired harness wait marks the run incomplete, it is never a violation. Connections are AF_UNIX socket pairs handed to the engine's own accept loop; the transfer variants hand the same socket over under the static type *net.TCPConn (see verif/blkkit). Concurrent writers are not part of this part; TLS upgrade paths are not covered by any part",
 			"panicking callbacks: a callback that panics has ended; the callbacks behind it are owed exactly as if it had returned (order, one at a time, OnClose once after them); with a conforming client that sends everything and then FIN all its messages reach OnMessage (message-dropped-after-callback-panic). A panicking OnOpen leaves Upgrade by the panic: the connection counts as opened once OnOpen ran. nbio logs the recovered panic as 'conn execute failed: <value>': exactly the lines carrying the harness's own panic value, at most as many as it raised in that execution, are not failures; every other logged error still is. Log lines left by a preceding execution that the explorer cut short are discarded at the start of each execution",
 		},
